@@ -461,6 +461,7 @@ class LifeSys:
         self.body = None
         self.changes = 0
         self.last = None
+        self.tainted = False
 
     def ops(self):
         if self.w is None:
@@ -530,13 +531,16 @@ class LifeSys:
         if w.routines['outer'].state is not st0:
             self.changes += 1
         self.last = [obs, {n: r.state.name for n, r in w.routines.items()}]
+        self.tainted = bool(dis)
         return dis
 
     def key(self):
         if self.w is None:
             return ['root']
+        # the non-trivial flag and "the last step disagreed" are part of the
+        # key so that both are functions of the state (deterministic counts)
         return [core.digest(self.body), self.ref.snapshot()[0],
-                self.w.implkey()]
+                self.w.implkey(), min(self.changes, 2), self.tainted]
 
     def nontrivial(self):
         return self.changes >= 2
@@ -618,6 +622,7 @@ class CondSys:
                                cfg.get('fvs', ()))
         self.resumed = 0
         self.last = None
+        self.tainted = False
 
     def ops(self):
         o = [list(x) for x in self.cfg['ops']]
@@ -636,6 +641,7 @@ class CondSys:
             who, obs = _step(w, ref, dis, True)
             if obs is None:         # spurious resumption: reference stops
                 self.last = ['spurious', who]
+                self.tainted = True
                 return dis
         else:
             t0 = w.main.main_tt._m_seconds
@@ -688,6 +694,7 @@ class CondSys:
                         'wake-ups queued per routine on the NRT scheduler: '
                         'a released (or playing) routine is never resumed'))
         self.last = [obs, owed]
+        self.tainted = bool(dis)
         return dis
 
     def _parked(self):
@@ -696,7 +703,8 @@ class CondSys:
             {n for f in ref.fvs.values() for n in f.cond.waiting}
 
     def key(self):
-        return [self.ref.snapshot(), self.w.implkey()]
+        return [self.ref.snapshot(), self.w.implkey(), min(self.resumed, 1),
+                self.tainted]
 
     def nontrivial(self):
         # at least one parked routine was released by signal / unhang /
@@ -911,6 +919,166 @@ def replay(job):
     return histbfs.replay(job)
 
 
+STANDALONE = '''\
+# Reproduces one C11 history with sc3 only: prints result / exception class of
+# every operation, Routine.state and main.current_tt afterwards.
+import json
+import sc3
+sc3.init('nrt', verbosity='CRITICAL')
+from sc3.base.main import main
+from sc3.base.stream import Routine, YieldAndReset, AlwaysYield
+
+HISTORY = json.loads(%r)
+body = HISTORY[0][1]
+R, runs = {}, {}
+
+
+def call(tgt, meth, *a):
+    try:
+        return ['ret', getattr(R[tgt], meth)(*a)]
+    except Exception as e:
+        return ['exc', type(e).__name__, e]
+
+
+def act(name, a, last):
+    if a[0] == 'raise':
+        raise ValueError('body')
+    if a[0] == 'yar':
+        raise YieldAndReset(a[1])
+    if a[0] == 'ay':
+        raise AlwaysYield(a[1])
+    tgt = name if a[1] == 'self' else a[1]
+    out = call(tgt, a[2])
+    print('   in', name, ':', tgt + '.' + a[2] + '()', out[:2],
+          '| current_tt is', main.current_tt)
+    if out[0] == 'exc' and a[3] == 'p':
+        raise out[2]
+    return out[1] if out[0] == 'ret' and a[2] == 'next' else last
+
+
+def script(name, spec):
+    k = runs.get(name, 0)
+    runs[name] = k + 1
+    return spec['runs'][min(k, len(spec['runs']) - 1)]
+
+
+def make(name, spec):
+    def gen(inval=None):
+        last = inval
+        for a in script(name, spec):
+            if a[0] == 'yield':
+                last = yield a[1]
+            elif a[0] == 'echo':
+                last = yield last
+            elif a[0] == 'return':
+                return
+            else:
+                last = act(name, a, last)
+
+    def fn(inval=None):
+        last = inval
+        for a in script(name, spec):
+            last = act(name, a, last)
+    if spec['kind'] == 'gen':
+        return (lambda inval: (yield from gen(inval))) if spec.get('param') \\
+            else (lambda: (yield from gen()))
+    return (lambda inval: fn(inval)) if spec.get('param') else (lambda: fn())
+
+
+for name in ('outer', 'inner'):
+    if name in body:
+        R[name] = Routine(make(name, body[name]))
+for op in HISTORY[1:]:
+    if op[0] == 'step':
+        q = main._clock_scheduler.queue
+        t, ct = q.pop()
+        ct._wakeup(t)
+        out = 'one scheduler task run'
+    else:
+        tgt, meth, a = {'next': ('outer', 'next', ()),
+                        'send': ('outer', 'next', tuple(op[1:])),
+                        'inext': ('inner', 'next', ()),
+                        'istop': ('inner', 'stop', ()),
+                        'ireset': ('inner', 'reset', ())}.get(
+                            op[0], ('outer', op[0], ()))
+        out = call(tgt, meth, *a)[:2]
+    print(op, '->', out, {n: r.state.name for n, r in R.items()},
+          'current_tt is main_tt:', main.current_tt is main.main_tt)
+    main.current_tt = main.main_tt
+'''
+
+
+def _standalone(v):
+    case = v['case']
+    if case.get('system') != 'life':
+        return None
+    import json
+    return STANDALONE % json.dumps(case['history'])
+
+
+def bfs(ctx, system, params, depth, label, batch=24):
+    """histbfs.run with a deterministic representative per state: among the
+    histories of one level that reach the same key the canonically smallest
+    one is kept (the shared engine keeps the first to arrive, which depends
+    on worker timing; counts and replay files would vary between runs).
+    Workers still execute mc.engines.histbfs.expand."""
+    seen = {'<root>'}
+    frontier = [[]]
+    states = 1
+    per_level = []
+    completed = 0
+    for level in range(1, depth + 1):
+        if not frontier:
+            completed = depth
+            break
+        order = core.shard_order(len(frontier), ctx.seed + level)
+        fr = [frontier[i] for i in order]
+        jobs = [{'module': MODNAME, 'system': system, 'params': params,
+                 'hists': fr[i:i + batch]} for i in range(0, len(fr), batch)]
+        best = {}
+        ntr = 0
+        for res in ctx.map('nrt', 'mc.engines.histbfs', 'expand', jobs):
+            ntr += res['tr']
+            ctx.violation_count += res['nviol'] - len(res['viol'])
+            for v in res['viol']:
+                v['case']['module'] = MODNAME
+                v['standalone'] = _standalone(v)
+                ctx.violation(v)
+            for o in res['out']:
+                ctx.outcomes.add(o)
+            for h2, k, nt, ok in res['children']:
+                if k in seen:
+                    continue
+                c = core.canon(h2)
+                b = best.get(k)
+                if b is None or c < b[0]:
+                    best[k] = (c, h2, nt, ok)
+        nxt = []
+        for k in best:
+            seen.add(k)
+        for c, h2, nt, ok in sorted(best.values(), key=lambda x: x[0]):
+            states += 1
+            if nt:
+                ctx.nontrivial += 1
+                if len(ctx.samples) < 4 and level >= min(depth, 4):
+                    ctx.samples.append({'system': system, 'params': params,
+                                        'history': h2})
+            if ok:
+                nxt.append(h2)
+        ctx.transitions += ntr
+        ctx.evaluations += ntr
+        ctx.traces += ntr
+        per_level.append({'depth': level, 'frontier_in': len(frontier),
+                          'transitions': ntr, 'new_states': len(best)})
+        frontier = nxt
+        completed = level
+    ctx.states += states
+    ctx.bounds[label] = {'depth_completed': completed, 'states': states,
+                         'levels': per_level,
+                         'space_closed': not frontier}
+    return states
+
+
 def main(ctx):
     ctx.rule = (
         'life: E2 BFS over histories [choose body, then <= D operations of '
@@ -956,19 +1124,17 @@ def main(ctx):
     quick = ctx.tier == 'quick'
     ctx.extra['life_bodies_quick_set'] = len(life_bodies('quick'))
     if quick:
-        histbfs.run(ctx, MODNAME, 'life', {'set': 'quick'}, depth=1 + 8,
-                    batch=24, label='life: quick body set + <= 8 operations')
+        bfs(ctx, 'life', {'set': 'quick'}, 1 + 8,
+            'life: quick body set + <= 8 operations')
     else:
         ctx.extra['life_bodies_thorough_set'] = len(life_bodies('thorough'))
-        histbfs.run(ctx, MODNAME, 'life', {'set': 'quick'}, depth=1 + 10,
-                    batch=24, label='life: quick body set + <= 10 operations')
-        histbfs.run(ctx, MODNAME, 'life', {'set': 'thorough'}, depth=1 + 5,
-                    batch=24,
-                    label='life: thorough body set + <= 5 operations')
+        bfs(ctx, 'life', {'set': 'quick'}, 1 + 10,
+            'life: quick body set + <= 10 operations')
+        bfs(ctx, 'life', {'set': 'thorough'}, 1 + 5,
+            'life: thorough body set + <= 5 operations')
     for cfg in sorted(COND_CONFIGS):
-        histbfs.run(ctx, MODNAME, 'cond', {'config': cfg},
-                    depth=12 if quick else 20, batch=24,
-                    label=f'cond:{cfg}')
+        bfs(ctx, 'cond', {'config': cfg}, 12 if quick else 24,
+            f'cond:{cfg}', batch=8)
     if not quick:
         progs = rt_programs()
         # the program with two signalling threads waking at the same instant
